@@ -5,23 +5,9 @@
 //! gdsim selftest --prop C01 [--n N]
 //! (internal) gdsim worker ... / gdsim replay-inner ...
 
-mod alloc;
-mod entry;
-mod gen;
-mod golden;
-mod harness;
-mod hostile;
-mod minimise;
-mod models;
-mod prop;
-mod props;
-mod rng;
-mod runner;
-mod scenarios;
-mod tape;
-mod world;
 
-use prop::Tier;
+use gdsim::prop::Tier;
+use gdsim::{alloc, props, runner};
 use std::path::PathBuf;
 
 #[global_allocator]
